@@ -164,6 +164,19 @@ class BlockEval:
             self.env[t.id] = v
         elif isinstance(t, (ast.Tuple, ast.List)):
             vals = list(v)
+            star = [i for i, e in enumerate(t.elts) if isinstance(e, ast.Starred)]
+            if len(star) == 1:  # a, *rest, z = vals
+                i, after = star[0], len(t.elts) - star[0] - 1
+                if len(vals) < len(t.elts) - 1:
+                    raise ValueError(f"not enough values to unpack (expected at least {len(t.elts) - 1}, got {len(vals)})")
+                for a, b in zip(t.elts[:i], vals[:i]):
+                    self._assign(a, b)
+                self._assign(t.elts[i].value, vals[i : len(vals) - after])
+                for a, b in zip(t.elts[i + 1 :], vals[len(vals) - after :]):
+                    self._assign(a, b)
+                return
+            if star:
+                raise Unknown(f"assignment target `{ast.unparse(t)[:40]}`")
             if len(vals) != len(t.elts):
                 raise ValueError("unpack")
             for a, b in zip(t.elts, vals):
